@@ -43,6 +43,8 @@ pub struct Lang {
     pub code: &'static [&'static str],
     /// a valid line of the language carrying an identifier-like token at `{}`
     pub wrap: &'static str,
+    /// the grammar's line-comment node includes the `\r` of a CRLF line ending
+    pub cr_in_line: bool,
     /// a code line holding a string literal; `{}` is replaced by a decoy tag
     pub decoy: Option<&'static str>,
     /// text every file must start with
@@ -50,49 +52,49 @@ pub struct Lang {
 }
 
 pub static LANGS: &[Lang] = &[
-    Lang { name: "python", suffixes: &["py", "pyi"], family: Family::Hash, line: &["#"], block: None, wrap: "{}",
+    Lang { name: "python", cr_in_line: true, suffixes: &["py", "pyi"], family: Family::Hash, line: &["#"], block: None, wrap: "{}",
            code: &["x = 1", "def f():", "    return 2", "y = [1, 2]"], decoy: Some("s = \"{}\""), prelude: "" },
-    Lang { name: "ruby", suffixes: &["rb"], family: Family::Hash, line: &["#"], block: None, wrap: "{}",
+    Lang { name: "ruby", cr_in_line: true, suffixes: &["rb"], family: Family::Hash, line: &["#"], block: None, wrap: "{}",
            code: &["x = 1", "y = 2"], decoy: Some("s = \"{}\""), prelude: "" },
-    Lang { name: "toml", suffixes: &["toml"], family: Family::Hash, line: &["#"], block: None, wrap: "{} = 1",
+    Lang { name: "toml", cr_in_line: false, suffixes: &["toml"], family: Family::Hash, line: &["#"], block: None, wrap: "{} = 1",
            code: &["a = 1", "b = \"x\""], decoy: Some("s = \"{}\""), prelude: "" },
-    Lang { name: "yaml", suffixes: &["yaml", "yml"], family: Family::Hash, line: &["#"], block: None, wrap: "{}: 1",
+    Lang { name: "yaml", cr_in_line: false, suffixes: &["yaml", "yml"], family: Family::Hash, line: &["#"], block: None, wrap: "{}: 1",
            code: &["a: 1", "b: x"], decoy: Some("s: \"{}\""), prelude: "" },
-    Lang { name: "make", suffixes: &["Makefile", "makefile", "mk"], family: Family::Hash, line: &["#"], block: None, wrap: "{} = 1",
+    Lang { name: "make", cr_in_line: true, suffixes: &["Makefile", "makefile", "mk"], family: Family::Hash, line: &["#"], block: None, wrap: "{} = 1",
            code: &["A = 1", "B := 2"], decoy: None, prelude: "" },
-    Lang { name: "bash", suffixes: &["sh", "bash"], family: Family::Bash, line: &["#"], block: None, wrap: "{}",
+    Lang { name: "bash", cr_in_line: true, suffixes: &["sh", "bash"], family: Family::Bash, line: &["#"], block: None, wrap: "{}",
            code: &["x=1", "echo hi"], decoy: Some("s=\"{}\""), prelude: "" },
-    Lang { name: "c", suffixes: &["c"], family: Family::C, line: &["//"], block: Some(("/*", "*/")), wrap: "int {};",
+    Lang { name: "c", cr_in_line: true, suffixes: &["c"], family: Family::C, line: &["//"], block: Some(("/*", "*/")), wrap: "int {};",
            code: &["int x = 1;", "int y = 2;"], decoy: Some("const char *s = \"{}\";"), prelude: "" },
-    Lang { name: "cpp", suffixes: &["cc", "cpp", "h"], family: Family::C, line: &["//"], block: Some(("/*", "*/")), wrap: "int {};",
+    Lang { name: "cpp", cr_in_line: true, suffixes: &["cc", "cpp", "h"], family: Family::C, line: &["//"], block: Some(("/*", "*/")), wrap: "int {};",
            code: &["int x = 1;", "int y = 2;"], decoy: Some("const char *s = \"{}\";"), prelude: "" },
-    Lang { name: "go", suffixes: &["go"], family: Family::C, line: &["//"], block: Some(("/*", "*/")), wrap: "var {} int",
+    Lang { name: "go", cr_in_line: true, suffixes: &["go"], family: Family::C, line: &["//"], block: Some(("/*", "*/")), wrap: "var {} int",
            code: &["var x = 1", "var y = 2"], decoy: Some("var s = \"{}\""), prelude: "package main\n" },
-    Lang { name: "gomod", suffixes: &["go.mod", "go.sum", "go.work"], family: Family::C, line: &["//"], block: None, wrap: "// {}",
+    Lang { name: "gomod", cr_in_line: true, suffixes: &["go.mod", "go.sum", "go.work"], family: Family::C, line: &["//"], block: None, wrap: "var {} int",
            code: &["module example.com/m", "go 1.21"], decoy: None, prelude: "" },
-    Lang { name: "js", suffixes: &["js", "jsx"], family: Family::C, line: &["//"], block: Some(("/*", "*/")), wrap: "{};",
+    Lang { name: "js", cr_in_line: false, suffixes: &["js", "jsx"], family: Family::C, line: &["//"], block: Some(("/*", "*/")), wrap: "{};",
            code: &["const x = 1;", "let y = 2;"], decoy: Some("const s = \"{}\";"), prelude: "" },
-    Lang { name: "ts", suffixes: &["ts", "d.ts", "tsx"], family: Family::C, line: &["//"], block: Some(("/*", "*/")), wrap: "{};",
+    Lang { name: "ts", cr_in_line: false, suffixes: &["ts", "d.ts", "tsx"], family: Family::C, line: &["//"], block: Some(("/*", "*/")), wrap: "{};",
            code: &["const x = 1;", "let y = 2;"], decoy: Some("const s = \"{}\";"), prelude: "" },
-    Lang { name: "java", suffixes: &["java"], family: Family::LineBlock, line: &["//"], block: Some(("/*", "*/")), wrap: "class {} { }",
+    Lang { name: "java", cr_in_line: true, suffixes: &["java"], family: Family::LineBlock, line: &["//"], block: Some(("/*", "*/")), wrap: "class {} { }",
            code: &["class A { }", "interface B { }"], decoy: None, prelude: "" },
-    Lang { name: "kotlin", suffixes: &["kt", "kts"], family: Family::LineBlock, line: &["//"], block: Some(("/*", "*/")), wrap: "val {} = 1",
+    Lang { name: "kotlin", cr_in_line: true, suffixes: &["kt", "kts"], family: Family::LineBlock, line: &["//"], block: Some(("/*", "*/")), wrap: "val {} = 1",
            code: &["val x = 1", "val y = 2"], decoy: Some("val s = \"{}\""), prelude: "" },
-    Lang { name: "swift", suffixes: &["swift"], family: Family::LineBlock, line: &["//"], block: Some(("/*", "*/")), wrap: "let {} = 1",
+    Lang { name: "swift", cr_in_line: true, suffixes: &["swift"], family: Family::LineBlock, line: &["//"], block: Some(("/*", "*/")), wrap: "let {} = 1",
            code: &["let x = 1", "let y = 2"], decoy: Some("let s = \"{}\""), prelude: "" },
-    Lang { name: "rust", suffixes: &["rs"], family: Family::Rust, line: &["//", "///", "//!"], block: Some(("/*", "*/")), wrap: "fn {}() {}",
+    Lang { name: "rust", cr_in_line: true, suffixes: &["rs"], family: Family::Rust, line: &["//", "///", "//!"], block: Some(("/*", "*/")), wrap: "fn {}() {}",
            code: &["fn f() {}", "const X: u8 = 1;"], decoy: Some("const S: &str = \"{}\";"), prelude: "" },
-    Lang { name: "php", suffixes: &["php", "phtml"], family: Family::Php, line: &["//", "#"], block: Some(("/*", "*/")), wrap: "${} = 1;",
+    Lang { name: "php", cr_in_line: false, suffixes: &["php", "phtml"], family: Family::Php, line: &["//", "#"], block: Some(("/*", "*/")), wrap: "${} = 1;",
            code: &["$x = 1;", "$y = 2;"], decoy: Some("$s = \"{}\";"), prelude: "<?php\n" },
-    Lang { name: "sql", suffixes: &["sql"], family: Family::Sql, line: &["--"], block: Some(("/*", "*/")), wrap: "SELECT {};",
+    Lang { name: "sql", cr_in_line: true, suffixes: &["sql"], family: Family::Sql, line: &["--"], block: Some(("/*", "*/")), wrap: "SELECT {};",
            code: &["SELECT 1;", "SELECT 2;"], decoy: Some("SELECT '{}';"), prelude: "" },
-    Lang { name: "csharp", suffixes: &["cs"], family: Family::Cs, line: &["//", "///"], block: Some(("/*", "*/")), wrap: "class {} { }",
+    Lang { name: "csharp", cr_in_line: false, suffixes: &["cs"], family: Family::Cs, line: &["//", "///"], block: Some(("/*", "*/")), wrap: "class {} { }",
            code: &["class A { }", "class B { }"], decoy: None, prelude: "" },
-    Lang { name: "css", suffixes: &["css"], family: Family::Css, line: &[], block: Some(("/*", "*/")), wrap: "{} { }",
+    Lang { name: "css", cr_in_line: false, suffixes: &["css"], family: Family::Css, line: &[], block: Some(("/*", "*/")), wrap: "{} { }",
            code: &["a { color: red; }", "b { color: blue; }"], decoy: None, prelude: "" },
-    Lang { name: "html", suffixes: &["html", "htm"], family: Family::Xml, line: &[], block: Some(("<!--", "-->")), wrap: "<p>{}</p>",
+    Lang { name: "html", cr_in_line: false, suffixes: &["html", "htm"], family: Family::Xml, line: &[], block: Some(("<!--", "-->")), wrap: "<p>{}</p>",
            code: &["<p>x</p>", "<div>y</div>"], decoy: Some("<p title=\"{}\">z</p>"), prelude: "" },
-    Lang { name: "xml", suffixes: &["xml"], family: Family::Xml, line: &[], block: Some(("<!--", "-->")), wrap: "<p>{}</p>",
+    Lang { name: "xml", cr_in_line: false, suffixes: &["xml"], family: Family::Xml, line: &[], block: Some(("<!--", "-->")), wrap: "<p>{}</p>",
            code: &["<p>x</p>", "<q>y</q>"], decoy: None, prelude: "<r>\n" },
 ];
 
@@ -325,9 +327,16 @@ impl<'a> W<'a> {
                 self.buf.push_str(&place.pre);
                 emit(self);
                 self.buf.push_str(&place.post);
-                let hi = self.buf.len();
-                self.spans.push(Span { lo, hi, kind: self.line_kind(opener), group: 0 });
+                let mut hi = self.buf.len();
                 self.buf.push_str(self.nl);
+                // grammar quirks: Rust doc comments include their line terminator; several
+                // grammars include the `\r` of a CRLF ending in the line comment node
+                if self.lang.family == Family::Rust && (opener == "///" || opener == "//!") {
+                    hi = self.buf.len();
+                } else if self.nl == "\r\n" && self.lang.cr_in_line {
+                    hi += 1;
+                }
+                self.spans.push(Span { lo, hi, kind: self.line_kind(opener), group: 0 });
                 (lo, hi)
             }
             Form::BlockOne => {
@@ -434,6 +443,10 @@ pub fn render(fs: &FileSpec) -> Rendered {
             let n = w.buf.len() - l;
             w.buf.truncate(n);
         }
+    }
+    let n = w.buf.len();
+    for s in w.spans.iter_mut() {
+        s.hi = s.hi.min(n);
     }
     let mut blocks = w.blocks;
     blocks.sort_by_key(|b| b.ts);
